@@ -34,7 +34,7 @@ def descriptions(ctx):
         if "jobs" in d["classes"] and "dead-end" not in d["classes"]:
             descs.extend(dflow_gen.with_failures(d))
     rng = ctx.rng("random-graphs")
-    for i in range(ctx.pick(6, 60)):
+    for i in range(ctx.pick(6, 40)):
         d = dflow_gen.random_desc(rng, i, max_stages=ctx.pick(2, 3), max_n=ctx.pick(2, 3))
         descs.append(d)
         if "jobs" in d["classes"] and rng.random() < 0.5:
@@ -76,7 +76,7 @@ def model_check(ctx, descs):
 def run_all(ctx, focus):
     """focus in {"C04", "C05", "C07"}: which clauses become violations of this check."""
     descs = descriptions(ctx)
-    seeds = ctx.pick(4, 20)
+    seeds = ctx.pick(4, 8)
     # ---- 1. the model satisfies the properties on every generated network (all interleavings)
     cls_count = {}
     for d in descs:
